@@ -1285,7 +1285,7 @@ def replay(run: Run, path: str):
         print(f"  {op}  ->  {out}{'' if ok else '   [outside the discipline]'}")
     bad = [m for m in s.mismatches if "mask" not in m["taint"]]
     for m in bad[:3]:
-        print(f"STALE after step {m['step']}: state {m['state']} node {m['node']}: read {m['observed']} but a fresh state gives {m['expected']}")
+        print(f"STALE after step {m['step']}: state {m['state']} node {m['node']}: read {m['observed']} but a fresh state gives {m['expected']}" + ("  (an independent variable the operation did not assign; expected = its value, cloned, before the operation)" if "alias-effect" in m["taint"] else ""))
     scope_bad = False
     if is_scoped(s):
         print("  trace (one entry per primitive event; 'seen' = auto_fork_type and _last_fork just inside / just after a block, or at a look):")
